@@ -11,12 +11,14 @@
   the theorems of `Props.C16` about `recipientClient` / `identityClient` (index 0 only, repeated
   file key or labels, error acknowledged then reported, unknown commands answered `unsupported`,
   zero stanzas, no file key = incorrect identity, a plugin that stops = an error) are about the
-  state machines in the source. `ClientUI.handle` / `readStanza`, the framing on the wire and the
-  process itself stay tied by the correspondence (scripted plugin process).
+  state machines in the source. `(*ClientUI).handle` is translated too (`handle_tie`, for callbacks
+  without hidden state); `readStanza`, the framing on the wire and the process itself stay tied by
+  the correspondence (scripted plugin process).
 -/
 import Proofs.GoTiePluginR
 import Proofs.GoTiePluginI
 import Proofs.GoTieWriteStanza
+import Proofs.GoTiePluginUI
 namespace AgeModel
 namespace Tie.C16
 open Extracted Plugin GoTie
@@ -56,6 +58,21 @@ theorem writeStanzaWithBody_tie {δ ε ω : Type} (E : GoTie.MarshalEnv δ ε ω
     ∃ d', plugin_writeStanzaWithBody E.W E.b64 E.New E.Wr E.Cl d t body = .ok (none, d') ∧
       E.absD d' = E.absD d ++ Format.marshalStanza ⟨t, [], body⟩ :=
   GoTie.writeStanzaWithBody_tie E t body d
+
+/-! What a UI command gets for an answer: `(*ClientUI).handle`, translated with its three callbacks
+as fields that may be nil. For callbacks given as pure functions it IS the model's `UI.handle`
+(one reply appended to the transcript; a fatal error with nothing written; or "not a UI command"
+with nothing written), so `Hd` of `PluginEnv` above is not an assumption about the shape of the
+replies. -/
+
+theorem handle_tie {χ : Type} (E : GoTie.UIEnv χ) (u : GoTie.PureUI) (eU : Go.Err) (name : Bytes) (conn : χ)
+    (m : Plugin.Stanza) :
+    ∃ out, plugin_ClientUI_handle E.W E.WB E.D (u.go eU) name conn (goFS m) = .ok out ∧
+      match u.model.handle E.dec () m with
+      | .reply _ r => out.1 = true ∧ out.2.1 = none ∧ E.absC out.2.2 = E.absC conn ++ [r]
+      | .fatal => out.1 = true ∧ out.2.1 ≠ none ∧ E.absC out.2.2 = E.absC conn
+      | .unknown => out.1 = false ∧ out.2.1 = none ∧ E.absC out.2.2 = E.absC conn :=
+  GoTie.handle_tie E u eU name conn m
 
 end Tie.C16
 end AgeModel
